@@ -321,7 +321,7 @@ impl<K: KeyT> World<K> {
                     }
                     _ => Shadow::from_list(&parse_list(doc)),
                 };
-                self.slots[si] = Slot { obj: o, shadow };
+                self.slots[si] = Slot { obj: o, shadow, born: "C15" };
                 self.consistency(si);
                 "ok".into()
             }
@@ -345,6 +345,25 @@ impl<K: KeyT> World<K> {
             let pairs = obj.pairs();
             if pairs.len() != obj.len() {
                 bad.push(format!("iteration yields {} pairs, len is {}", pairs.len(), obj.len()));
+            }
+            if let Obj::Threaded(t, _) = obj {
+                // every string the interner serialises is found, under the key it is serialised with,
+                // and that key resolves back to it
+                if let Ok(j) = serde_json::to_string(t) {
+                    if let Ok(m) = serde_json::from_str::<std::collections::BTreeMap<String, K>>(&j) {
+                        for (s, k) in &m {
+                            if t.get(s) != Some(*k) {
+                                bad.push(format!("string {} serialises with key {} but get gives {:?}", hex(s.as_bytes()), k.into_usize(), t.get(s).map(|k| k.into_usize())));
+                            }
+                            if t.try_resolve(k) != Some(s.as_str()) {
+                                bad.push(format!("string {} has key {} which resolves to {:?}", hex(s.as_bytes()), k.into_usize(), t.try_resolve(k).map(|x| hex(x.as_bytes()))));
+                            }
+                        }
+                        if m.len() != t.len() {
+                            bad.push(format!("{} strings but len {}", m.len(), t.len()));
+                        }
+                    }
+                }
             }
             let mut seen = std::collections::HashSet::new();
             for (k, s) in &pairs {
@@ -393,7 +412,7 @@ impl<K: KeyT> World<K> {
                 for s in sh.stat.iter_mut() {
                     *s = None;
                 }
-                self.slots[b] = Slot { obj: o, shadow: sh };
+                self.slots[b] = Slot { obj: o, shadow: sh, born: "C14" };
                 "ok".into()
             }
             Caught::Ok(Some(Err(e))) => {
@@ -447,7 +466,7 @@ impl<K: KeyT> World<K> {
                 if got != sh.strs {
                     self.fail("C17", "from-iter-differs", format!("from_iter over {} items gives {} strings, the explicit intern sequence gives {}", l.len(), got.len(), sh.strs.len()));
                 }
-                self.slots[si] = Slot { obj: o, shadow: sh };
+                self.slots[si] = Slot { obj: o, shadow: sh, born: "" };
                 "ok".into()
             }
             Caught::Ok(None) => "bad-op".into(),
@@ -545,6 +564,10 @@ impl<K: KeyT> World<K> {
                 return "bad-op".into();
             }
         }
+        self.cur_born = match subjects.first() {
+            Some(&i) => self.slots.get(p(i)).map(|s| s.born).unwrap_or(""),
+            None => "",
+        };
         let out = match (opname, toks.len()) {
             ("new", 6) => {
                 let si = p(1);
@@ -558,7 +581,7 @@ impl<K: KeyT> World<K> {
                     "threaded" => Obj::Threaded(ThreadedRodeo::with_capacity_memory_limits_and_hasher(cap, lim, h), false),
                     _ => return "bad-op".into(),
                 };
-                *self.slot(si) = Slot { obj: o, shadow: Shadow::new() };
+                *self.slot(si) = Slot { obj: o, shadow: Shadow::new(), born: "" };
                 "ok".into()
             }
             ("intern", 3) => self.intern(p(1), &unhex(toks[2]), None, false, via),
@@ -609,7 +632,7 @@ impl<K: KeyT> World<K> {
                 }
             }
             ("drop", 2) => {
-                *self.slot(p(1)) = Slot { obj: Obj::Gone, shadow: Shadow::new() };
+                *self.slot(p(1)) = Slot { obj: Obj::Gone, shadow: Shadow::new(), born: "" };
                 "ok".into()
             }
             ("clone" | "tryClone" | "cloneFrom" | "tryCloneFrom", 3) => self.do_clone(opname, p(1), p(2)),
